@@ -70,6 +70,12 @@ func (f *Fosite) NewPushedAuthorizeRequest(ctx context.Context, r *http.Request)
 		return fr, err
 	}
 
+	// The request was validated for (and will be stored with) the client named by "client_id":
+	// that must be the client which authenticated.
+	if fr.GetClient().GetID() != client.GetID() {
+		return request, errorsx.WithStack(ErrInvalidRequest.WithHint("Provided client_id mismatch."))
+	}
+
 	if fr.GetRequestedScopes().Has("openid") && r.Form.Get("redirect_uri") == "" {
 		return fr, errorsx.WithStack(ErrInvalidRequest.WithHint("Query parameter 'redirect_uri' is required when performing an OpenID Connect flow."))
 	}
